@@ -318,7 +318,7 @@ class C12(Spec):
                 parts.append(cur)
                 ev = sorted(rng.sample(range(span), rng.randint(0, span // 2)))
                 yield {'kind': 'event_rate', 'p1': size, 'p2': step, 's0': rng.choice([0, 5]), 'chunks': parts,
-                       'events': ev}
+                       'events': ev, 'evorder': rng.choice([None, None, 'rev', 'split'])}
         for i in range(300 if quick else 4000):
             size, step = rng.choice([(20, 20), (20, 5), (10, 10), (16, 4), (5, 7), (1, 1), (7, 3)])
             n = rng.randint(1, 150)
@@ -330,7 +330,7 @@ class C12(Spec):
                 left -= k
             ev = sorted(rng.randrange(n) for _ in range(rng.randint(0, n // 3 + 1)))
             c = {'kind': 'event_rate', 'p1': size, 'p2': step, 's0': rng.choice([0, 0, 3, 100]), 'chunks': parts,
-                 'events': ev}
+                 'events': ev, 'evorder': rng.choice([None, None, 'rev', 'split'])}
             if rng.random() < 0.03 and len(parts) > 1:
                 g = [0] * len(parts)
                 g[rng.randrange(1, len(parts))] = rng.choice([-1, 2])
@@ -489,6 +489,14 @@ class C12(Spec):
                 continue
             _, a, b, evs = ml.split()
             evs = [] if evs == '-' else [int(v) for v in evs.split(',')]
+            # An Events block is a set of (kind, sample) tuples: nothing requires them to be listed
+            # chronologically.  'rev' lists them newest first, 'split' lists alternate events first
+            # (like "all rising before all falling"); the model (a count per window) is order-free.
+            order = c.get('evorder')
+            if order == 'rev':
+                evs = evs[::-1]
+            elif order == 'split':
+                evs = evs[0::2] + evs[1::2]
             n0 = len(out)
             try:
                 co.send(P.Events([('e', s) for s in evs], int(a), int(b), FS))
